@@ -69,6 +69,9 @@ pub enum SiteKind {
     CtorIdx,
     DedupRef,
     FixedInt,
+    /// a var-int that is (part of) a leaf value: a FixedOffset's seconds, a year, nanoseconds, a VarU32
+    LeafVarI,
+    LeafVarU,
     /// a whole element / field / chunk (range), for splice, delete, duplicate
     Elem,
     Chunk,
@@ -260,7 +263,7 @@ impl<'f> Enc<'f> {
             }
             (Str | StrRef | RcStr, Val::Str(s)) => self.string(s, f),
             (Dedup, Val::Str(s)) => self.dedup(s, f),
-            (VarU32, Val::Int(i)) => f.vu32(SiteKind::FixedInt, *i as u32),
+            (VarU32, Val::Int(i)) => f.vu32(SiteKind::LeafVarU, *i as u32),
             (Duration, Val::Duration(s, n)) => {
                 f.fixed(&s.to_be_bytes());
                 f.fixed(&n.to_be_bytes());
@@ -304,20 +307,20 @@ impl<'f> Enc<'f> {
             (Weekday, Val::Weekday(d)) | (Month, Val::Month(d)) => f.fixed(&[*d]),
             (FixedOffset, Val::Offset(s)) => {
                 f.u8(SiteKind::Tag, 0);
-                f.vi32(SiteKind::FixedInt, *s)
+                f.vi32(SiteKind::LeafVarI, *s)
             }
             (Tz, Val::Tz(n)) => {
                 f.u8(SiteKind::Tag, 1);
                 self.string(n, f)
             }
             (NaiveDate, Val::Date(y, m, d)) => {
-                f.vu32(SiteKind::FixedInt, *y as u32);
+                f.vu32(SiteKind::LeafVarU, *y as u32);
                 f.fixed(&[*m]);
                 f.fixed(&[*d]);
             }
             (NaiveTime, Val::Time(h, m, s, n)) => {
                 f.fixed(&[*h, *m, *s]);
-                f.vu32(SiteKind::FixedInt, *n);
+                f.vu32(SiteKind::LeafVarU, *n);
             }
             (NaiveDateTime | DtLocal, Val::Tuple(xs)) if xs.len() == 2 => {
                 self.enc(&NaiveDate, &xs[0], f)?;
